@@ -214,7 +214,7 @@ func jsonCases(run *Run, db DBody, nat, js string) {
 	if !ok {
 		return
 	}
-	legacy := map[string]bool{"ref": true}
+	legacy := map[string]bool{"ref": true, "dep": true}
 	fj := parseFile("main.tf.json", []byte(js))
 	fn := parseFile("main.tf", []byte(nat))
 	if fj == nil || fn == nil {
@@ -467,7 +467,7 @@ func jsonVariantCases(run *Run, r *rand.Rand, db DBody) {
 	if !ok {
 		return
 	}
-	v := mutateBody(r, jvOfS(db.jvalS(map[string]bool{"ref": true})), sch, true)
+	v := mutateBody(r, jvOfS(db.jvalS(map[string]bool{"ref": true, "dep": true})), sch, true)
 	src := v.text()
 	f := parseFile("main.tf.json", []byte(src))
 	if f == nil {
